@@ -244,36 +244,45 @@ def check_C15(A, R, tier):
         I, fr, out, col = forced_analysis(A, b, {STRAT + "is_history_altered": force_bool(True),
                                                  "std::collections::HashMap::<K, V, S, A>::get": force_hist_some(A)},
                                           cfgd=dict(label="EI5"), state=edge_state(A, unknown=True))
-        for k, v in I.rec.facts.items():
-            if k[0] == "write_edge":
+        for k, v in list(I.rec.facts.items()):
+            if k[0] != "write_edge":
+                continue
+            # a cache of the verdict: with the flag set, the comparison is not asked again
+            st2 = edge_state(A, unknown=False, proj=v["proj"], value=v["value"])
+            I2, fr2, out2, col2 = forced_analysis(A, b, {STRAT + "is_history_altered": force_bool(False)}, cfgd=dict(label="EI6"), state=st2)
+            if not any(k2[0] == "strategy_call" for k2 in I2.rec.facts):
                 vfields.add(v["proj"])
     R.floor("R15.5", "edge field that caches the verdict of the dependency check", len(vfields), 1)
     seen5 = set()
+    cand_names = set(c_.name for c_ in cands)
     for (entry, label), run in runs:
-        byact = {}
-        for v in run.by_kind("write_edge"):
-            if v["proj"] in vfields:
-                byact.setdefault((v["fn"], v.get("fid")), []).append(v)
-        for (fn, fid), ws_ in byact.items():
-            if fn in seen5:
+        ws5 = [v for v in run.by_kind("write_edge") if v["proj"] in vfields]
+        if not ws5:
+            continue
+        scs = [sc for sc in run.by_kind("strategy_call") if sc["method"] == "is_history_altered"]
+        for w in ws5:
+            site = (w["fn"], w["bb"])
+            if site in seen5:
                 continue
-            pairs_ = set((w["a"], w["b"]) for w in ws_)
+            chain = run.chain(w)
+            fids = set(c_[0] for c_ in chain if c_[0] is not None)
             asked = set()
-            for sc in run.by_kind("strategy_call"):
-                if sc["method"] == "is_history_altered" and sc.get("fid") == fid:
+            for sc in scs:
+                if sc.get("fid") in fids:
                     ia, ib = id_syms(sc["args"][0]), id_syms(sc["args"][1])
                     if ia and ib and len(ia) == 1 and len(ib) == 1:
                         asked.add((list(ia)[0], list(ib)[0]))
+            in_check = any(c_[1] in cand_names for c_ in chain)
             # the dependency check itself also writes the verdict for 'no record at all' without asking; everywhere else the
-            # verdict must come from a comparison made in the same activation
-            in_check = fn in [c_.name for c_ in cands]
-            ok = len(pairs_) == 1 and ((not asked and in_check) or (bool(asked) and pairs_ <= asked))
-            if not ok or len(pairs_) == 1:
-                seen5.add(fn)
-            R.ob("R15.5", "%s | the verdict is cached only for the dependency that was compared" % short(fn), ok,
-                 detail="an activation writes the cached verdict of %d dependencies, the comparison was asked about %d of them: a verdict the "
-                        "comparison never gave for that pair decides whether its consumer is executed" % (len(pairs_), len(pairs_ & asked)),
-                 site=A.site(ws_[0]))
+            # verdict must come from a comparison about exactly this dependency made in an enclosing activation
+            ok = ((w["a"], w["b"]) in asked) or (in_check and not asked) or (in_check and (w["a"], w["b"]) in asked)
+            if in_check and asked and (w["a"], w["b"]) not in asked:
+                ok = False
+            seen5.add(site)
+            R.ob("R15.5", "%s | the verdict is cached only for the dependency that was compared" % short(w["fn"]), ok,
+                 detail="the cached verdict of a dependency is written without the comparison having been asked about that dependency "
+                        "(asked about %d other(s)): a verdict the comparison never gave decides whether its consumer is executed" % len(asked),
+                 site=A.site(w))
     # R15.3: the changed-output error needs the comparison to say 'altered'
     n = 0
     for (entry, label), run in runs:
